@@ -22,9 +22,11 @@ macro_rules! props {
 }
 
 props! {
+    "C02" => c02,
     "C07" => c07,
     "C08" => c08,
     "C12" => c12,
+    "C17" => c17,
 }
 
 pub fn worker(_args: &[String]) -> i32 {
